@@ -63,7 +63,10 @@ def cls_src(name, base, fields, methods, cls_order):
     for m in methods:
         md = ord_src(m["ord"])
         if m.get("style") == "serialized":
-            body.append(f"    @serialized(" + (f"order={md}" if md else "") + ")")
+            # an alias different from the function name: ordering targets and class-level overrides go by name
+            al = repr(m["name"] + "_al") if m.get("aliased") else ""
+            args = ", ".join(x for x in (al, f"order={md}" if md else "") if x)
+            body.append(f"    @serialized({args})")
         else:
             body.append(f"    @resolver(serialized=True" + (f", order={md}" if md else "") + ")")
         body.append(f"    def {m['name']}(self) -> int:")
@@ -134,20 +137,22 @@ def observe(case, views):
             if "Cyclic after/before ordering" in str(e):
                 return "ValueError"
             return f"EXC:{type(e).__name__}:{e}"
+    def names(keys):
+        return [k[:-3] if isinstance(k, str) and k.endswith("_al") else k for k in keys] if isinstance(keys, list) else keys
     for v in views:
         if v == "ser":
-            out[v] = guard(lambda: list(serialize(A, A())))
+            out[v] = guard(lambda: names(list(serialize(A, A()))))
         elif v == "dschema":
             out[v] = guard(lambda: list(deserialization_schema(A).get("properties", {})))
         elif v == "sschema":
-            out[v] = guard(lambda: list(serialization_schema(A).get("properties", {})))
+            out[v] = guard(lambda: names(list(serialization_schema(A).get("properties", {}))))
         elif v == "graphql":
             def g():
                 from apischema.graphql import graphql_schema
                 ns = {"A": A}
                 exec("def getA() -> A:\n    return A()\n", ns)
                 schema = graphql_schema(query=[ns["getA"]], aliaser=lambda s: s)
-                return list(schema.type_map["A"].fields)
+                return names(list(schema.type_map["A"].fields))
             out[v] = guard(g)
     pyrun.drop_module(mod)
     return out
@@ -221,9 +226,9 @@ def random_case(rng):
 
     base = None
     if split:
-        base = dict(fields=rfields(names[:split]), methods=[dict(name=m, ord=rord(), style=rng.choice(["serialized", "resolver"])) for m in mnames[:msplit]],
+        base = dict(fields=rfields(names[:split]), methods=[dict(name=m, ord=rord(), style=rng.choice(["serialized", "resolver"]), aliased=rng.random() < 0.4) for m in mnames[:msplit]],
                     cls_order=rcls_order(True))
-    return dict(fields=rfields(names[split:]), methods=[dict(name=m, ord=rord(), style=rng.choice(["serialized", "resolver"])) for m in mnames[msplit:]],
+    return dict(fields=rfields(names[split:]), methods=[dict(name=m, ord=rord(), style=rng.choice(["serialized", "resolver"]), aliased=rng.random() < 0.4) for m in mnames[msplit:]],
                 cls_order=rcls_order(True), base=base)
 
 
